@@ -515,6 +515,22 @@ def width(rep, c, sfx, ctors, adt):
         if b["path"] in ctors or b.get("impl_self") == TRACKER or any(
                 kind(n) == "Path" and n.get("path") == GLOBAL for n in walk(b["body"])):
             scan.append(b)
+    # ... nor computes with it: the value the tracker compares against is the value the setter stored (what `limit + 1`
+    # means at usize::MAX is an overflow panic, or 0 = every call refused)
+    for b in scan:
+        if b["path"] not in ctors:
+            continue
+        for st in [b]:
+            for f in [{"e": b["body"]}]:
+                for tup in [x for x in walk(f["e"]) if kind(x) == "Tup" and len(x.get("elems", [])) == 2]:
+                    for el in tup["elems"]:
+                        ar = [y for y in walk(el) if kind(y) == "Binary" and y["op"] in ("+", "-", "*", "/", "<<", ">>")
+                              or (kind(y) == "MethodCall" and str(y.get("m", "")).split("_")[0] in ("wrapping", "saturating", "checked", "overflowing"))]
+                        for y in ar:
+                            r.violation("no-arith:" + b["path"].replace("pest::parser_state::", ""), where(y),
+                                        "the tracker is built with a computed limit (`%s`): the threshold is no longer the "
+                                        "value that was set (overflow at usize::MAX; off by the added amount everywhere "
+                                        "else)" % hirq.expr_text(y)[:40])
     for b in scan:
         r.instance("no-cast:" + b["path"].replace("pest::parser_state::", ""), where(b["body"]))
         for n in walk(b["body"]):
